@@ -303,6 +303,32 @@ func pairs(t lib.IntType, rng *lib.Rng, nrand, coqRand int, f func(a, b *big.Int
 			}
 		}
 	}
+	// exact quotient boundaries: a = floor(bound / b) and its neighbours for small and random b, both orders
+	for _, bound := range []*big.Int{t.Max(), t.Min()} {
+		if bound == nil || bound.Sign() == 0 {
+			continue
+		}
+		var bs []*big.Int
+		for _, k := range []int64{2, 3, 5, 7, 10, 16, 255, 256, -1, -2, -3, -7} {
+			bs = append(bs, big.NewInt(k))
+		}
+		for i := 0; i < 6; i++ {
+			bs = append(bs, t.Random(rng))
+		}
+		for i, b := range bs {
+			if b.Sign() == 0 || !t.InRange(b) {
+				continue
+			}
+			q := new(big.Int).Quo(bound, b)
+			for _, d := range []int64{-1, 0, 1} {
+				a := new(big.Int).Add(q, big.NewInt(d))
+				if t.InRange(a) {
+					f(a, b, i < 6 || *tier == "thorough")
+					f(b, a, false)
+				}
+			}
+		}
+	}
 	if t.Bits == 8 {
 		lo, hi := t.Min().Int64(), t.Max().Int64()
 		for a := lo; a <= hi; a++ {
